@@ -345,6 +345,22 @@ func init() {
 			from := g.intn(20)
 			g.emit("pathsof %s %d %d %d", showBytesList(keys), from, h, g.intn(2))
 		}
+		// long key lists (the property holds for every list length): sorted keys over a small alphabet, so that many
+		// neighbours truncate to the same path; lengths around powers of two and chunk-sized multiples
+		for _, n := range []int{100, 1000, 4096, 16383, 16384, 16385, 20000, g.n(33000, 70001)} {
+			keys := make([][]byte, 0, n)
+			for k := 0; k < n; k++ {
+				if k > 0 && g.intn(3) != 0 {
+					keys = append(keys, keys[k-1])
+				} else {
+					keys = append(keys, []byte{byte(k * 250 / n), byte(g.intn(4)), byte(g.intn(256))})
+				}
+			}
+			sort.SliceStable(keys, func(i, j int) bool { return string(keys[i]) < string(keys[j]) })
+			for _, d := range []int{1, 0} {
+				g.emit("pathsof %s %d %d %d", showBytesList(keys), []int{0, 3}[g.intn(2)], []int{12, 16, 24}[g.intn(3)], d)
+			}
+		}
 		g.emit("pathsof xffffffff 0 32 1")
 		g.emit("pathsof xffffffff 0 32 0")
 		g.emit("pathsof xffffffff,xffffffff,xffffffff00 0 32 1")
